@@ -21,6 +21,8 @@
      wfl <cfg> <hist> <via> <k> <kind> <then> <v:t:l:i;..>   the connection's next Write takes k bytes and fails
                                      (kind t|n = a deadline error; k "-" = no fault): via d client_write_header_io,
                                      via q client_send_io; "<ok|E>:<bytes received>", "R" refused
+     rpz <cfg> <hist> <kind> <hex/hex/..>   client_paused_log: the stream delivered in these pieces with a deadline
+                                     error between consecutive pieces; the headers reported, comma separated, "-" none
    ("!nh" after a stl token: client_offers is false - the message is not handed to a handler)
    decoded headers print as ver.typ.len.id, rejection/refusal as E, bytes as hex *)
 open Model
@@ -221,6 +223,12 @@ let () =
                else (match client_send_io st (n_of_int t) (n_of_int l) f with
                    | None -> "R" | Some r -> show r)
              | _ -> failwith "bad item") (String.split_on_char ';' items)))
+       | ["rpz"; cfg; hist; _; pieces] ->
+         let st = client_run (parse_cfg cfg) (parse_hist hist) in
+         let ps = List.map (fun h -> if h = "" then [] else bytes_of_hex h) (String.split_on_char '/' pieces) in
+         (match client_paused_log st ps with
+          | [] -> Buffer.add_char out '-'
+          | hs -> Buffer.add_string out (String.concat "," (List.map (fun h -> res_string (HOk h)) hs)))
        | ["raw"; h] ->
          decode_both out (if h = "-" then [] else bytes_of_hex h)
        | ["enc"; ver; typ; lens; ids] ->
